@@ -6,6 +6,7 @@ JSON parser
 package anytype
 
 import (
+	"encoding/json"
 	"fmt"
 	"math/bits"
 	"os"
@@ -32,6 +33,24 @@ const (
 	stateValString
 	stateValAfterString
 )
+
+/*
+Decodes the content of a JSON string literal (without the surrounding quotes).
+Parameters:
+  - str - raw content of the literal,
+  - line - current line of the input.
+
+Returns:
+  - decoded string,
+  - error if the literal contains an invalid escape sequence.
+*/
+func unquote(str string, line int) (string, error) {
+	var result string
+	if err := json.Unmarshal([]byte(`"`+str+`"`), &result); err != nil {
+		return "", fmt.Errorf("not a valid JSON - invalid string '%s' on line %d", str, line)
+	}
+	return result, nil
+}
 
 /*
 Parses a primitive field of object or list. Does not include strings.
@@ -168,7 +187,10 @@ func parseList(json string, line *int) (List, int, error) {
 				continue
 			}
 			if char == '"' {
-				str, _ := strconv.Unquote(fmt.Sprintf(`"%s"`, val.String()))
+				str, err := unquote(val.String(), *line)
+				if err != nil {
+					return nil, 0, err
+				}
 				list.Add(str)
 				val.Reset()
 				state = stateValAfterString
@@ -279,7 +301,10 @@ func parseObject(json string, line *int) (Object, int, error) {
 			if char != ':' {
 				return nil, 0, fmt.Errorf("not a valid JSON - expecting ':', got '%s' on line %d", string(char), *line)
 			}
-			str, _ := strconv.Unquote(fmt.Sprintf(`"%s"`, key.String()))
+			str, err := unquote(key.String(), *line)
+			if err != nil {
+				return nil, 0, err
+			}
 			key.Reset()
 			key.WriteString(str)
 			val.Reset()
@@ -378,7 +403,10 @@ func parseObject(json string, line *int) (Object, int, error) {
 				continue
 			}
 			if char == '"' {
-				str, _ := strconv.Unquote(fmt.Sprintf(`"%s"`, val.String()))
+				str, err := unquote(val.String(), *line)
+				if err != nil {
+					return nil, 0, err
+				}
 				object.Set(key.String(), str)
 				state = stateValAfterString
 				continue
